@@ -415,7 +415,8 @@ def ellipse_calls(rep, r):
         with warnings.catch_warnings():
             warnings.simplefilter('ignore')
             return e.fit_image(maxsma=25, **kw)
-    for first, tag in [(dict(fix_center=True), 'fix-flags'), (dict(linear=True, step=2.0), 'linear-growth'), ({}, 'plain')]:
+    for first, tag in [(dict(fix_center=True), 'fix-flags'), (dict(linear=True, step=2.0), 'linear-growth'), ({}, 'plain'),
+                       (dict(sma0=16.0), 'sma0'), (dict(minsma=3.0, step=0.2), 'minsma-step'), (dict(integrmode='median'), 'integrmode')]:
         e = mk()
         run(e, **first)
         a = run(e)
